@@ -1,7 +1,8 @@
 //! C07 — unreachable memory is reclaimed and a dropped runtime frees everything.
 //! (a) metamorphic bound: a loop with bounded live data and unbounded garbage must not need more heap
 //!     when it runs 8x longer; (b) histories of create / run / drop with a counting allocator: live
-//!     bytes return exactly to the baseline after every drop.
+//!     bytes return exactly to the baseline after every drop; (c) a runtime that has run 8x as many
+//!     finished tasks must not hold more memory.
 
 use crate::harness::*;
 use crate::proto::*;
@@ -85,6 +86,106 @@ impl Prop for BoundedHeap {
             return Verdict::Fail(Failure::new("MemoryGrowth", format!("8x the garbage but only {} vs {} objects reclaimed", r8.stats.objects_freed, r1.stats.objects_freed)).feat("bound:freed").detail(detail));
         }
         if r8.stats.objects_freed >= 20 * r8.stats.main_live_objects.max(1) {
+            st.nt(&p1);
+            st.sample = Some(detail);
+        }
+        Verdict::Pass(st)
+    }
+}
+
+
+#[derive(Clone, Debug, Serialize, Deserialize)]
+pub struct TaskCase {
+    /// payload kind captured by every task: 0 array<int> | 1 array<string> | 2 struct with array | 3 nested arrays | 4 tuple
+    pub kind: u8,
+    /// elements per payload
+    pub size: u16,
+    /// tasks spawned (one after the other; each finishes before the next is spawned)
+    pub n: u16,
+    /// 0 = the task only reports; 1 = it spawns a nested task that reports; 2 = it also sends its copy back
+    pub style: u8,
+    pub budget: u32,
+}
+
+fn task_program(c: &TaskCase, n: u32) -> String {
+    let s = c.size.max(1);
+    let (decl, make, touch, len) = match c.kind % 5 {
+        0 => ("", format!("array.filled(i, {s})"), "p.push(1)", "p.len()"),
+        1 => ("", format!("array.filled(\"s\" .. i, {s})"), "p.push(\"t\")", "p.len()"),
+        2 => ("type Rec = {\n  x: int\n  arr: array<int>\n}\n\n", format!("Rec(i, array.filled(i, {s}))"), "p.arr.push(1)", "p.arr.len()"),
+        3 => ("", format!("[array.filled(i, {s}), [i]]"), "p[0].push(1)", "p[0].len()"),
+        _ => ("", format!("(array.filled(i, {s}), \"t\" .. i)"), "match p {\n      (a, _) -> a.push(1)\n    }", "match p {\n      (a, _) -> a.len()\n    }"),
+    };
+    let mut src = String::from(decl);
+    src.push_str("let done: channel<int> = channel()\n");
+    if c.style % 3 == 2 {
+        src.push_str("let back: channel<array<int>> = channel()\n");
+    }
+    src.push_str(&format!("var total = 0\nfor i in {n} {{\n  let p = {make}\n  task {{\n    {touch}\n"));
+    match c.style % 3 {
+        0 => src.push_str(&format!("    done.write({len})\n")),
+        1 => src.push_str(&format!("    task {{\n      {touch}\n      done.write({len})\n    }}\n")),
+        _ => src.push_str(&format!("    back.write(array.filled(i, {s}))\n    done.write({len})\n")),
+    }
+    src.push_str("  }\n  total = total + done.read()\n");
+    if c.style % 3 == 2 {
+        src.push_str("  total = total + back.read().len()\n");
+    }
+    src.push_str("}\nprintln(total)\n");
+    src
+}
+
+pub struct TaskGarbage;
+
+impl Prop for TaskGarbage {
+    type Case = TaskCase;
+    fn name(&self) -> &'static str {
+        "finished_tasks_release_memory"
+    }
+    fn rule(&self) -> &'static str {
+        "one case = a loop that spawns n tasks one after the other; each task captures (and so receives a deep copy of) a payload of `size` elements (array<int>, array<string>, struct with an array, nested arrays, tuple), touches it, optionally spawns a nested task or sends an array back, reports through a channel and finishes before the next one is spawned; run with n and 8n tasks under the default collector at a generated step budget; the bytes the process allocated for the runtime that are still live at the end of the run (counting global allocator, runtime not yet dropped) with 8n tasks must be <= 1.5 x the figure with n tasks + 256 KiB; both runs must print the same total a model computes; non-trivial = n x size x 8 bytes >= 256 KiB (retaining every finished task's copy would then exceed the bound); distinct by case"
+    }
+    fn n_cases(&self, tier: Tier) -> u32 {
+        tier.pick(120, 3000)
+    }
+    fn strategy(&self, tier: Tier, _f: &Findings) -> BoxedStrategy<Self::Case> {
+        (0u8..5, tier.pick(500u16..6000, 200u16..8000), tier.pick(10u16..40, 10u16..120), 0u8..3, prop_oneof![Just(1000u32), Just(1u32), 2u32..50, Just(100_000u32)]).prop_map(|(kind, size, n, style, budget)| TaskCase { kind, size, n, style, budget }).boxed()
+    }
+    fn judge(&self, c: &Self::Case, env: &mut Env) -> Verdict {
+        let opts = RunOpts { max_steps: 400_000_000, max_calls: 400_000_000, budgets: vec![c.budget.max(1)], ..RunOpts::default() };
+        let (p1, p8) = (task_program(c, c.n as u32), task_program(c, c.n as u32 * 8));
+        let r1 = try_exec!(env.run1(&p1, &opts));
+        let r8 = try_exec!(env.run1(&p8, &opts));
+        let mut st = CaseStats::one();
+        st.evals = 2;
+        let s = c.size.max(1) as u64;
+        for (r, src, n) in [(&r1, &p1, c.n as u64), (&r8, &p8, c.n as u64 * 8)] {
+            if let Some(f) = crash_failure(r) {
+                return Verdict::Fail(f.detail(json!({"src": src})));
+            }
+            if !r.compile.is_ok() || !matches!(r.end, RunEnd::Done) {
+                return Verdict::Fail(Failure::new("VerdictMismatch", format!("task program did not run to completion: {:?} / {:?}", r.compile, r.end).chars().take(300).collect::<String>()).detail(json!({"src": src})));
+            }
+            let per = match c.style % 3 {
+                0 => s + 1,
+                1 => s + 2,
+                _ => s + 1 + s,
+            };
+            let want = format!("{}\n", n * per);
+            if r.stdout != want {
+                return Verdict::Fail(Failure::new("OutcomeMismatch", format!("task program printed {:?}, the model says {:?}", r.stdout.chars().take(60).collect::<String>(), want)).detail(json!({"src": src})));
+            }
+        }
+        let detail = json!({"src_n": p1, "n": c.n, "live_bytes_n": r1.stats.runtime_live_bytes, "live_bytes_8n": r8.stats.runtime_live_bytes, "budget": c.budget});
+        if r8.stats.runtime_live_bytes as f64 > 1.5 * (r1.stats.runtime_live_bytes.max(0) as f64) + 262144.0 {
+            return Verdict::Fail(
+                Failure::new("MemoryGrowth", format!("memory held by the runtime grows with the number of finished tasks: {} bytes live after {} tasks, {} after {}", r1.stats.runtime_live_bytes, c.n, r8.stats.runtime_live_bytes, c.n as u32 * 8))
+                    .feat("bound:finished-tasks")
+                    .detail(detail),
+            );
+        }
+        st.label(format!("style:{}", c.style % 3));
+        if c.n as u64 * s * 8 >= 1 << 18 {
             st.nt(&p1);
             st.sample = Some(detail);
         }
@@ -209,4 +310,5 @@ pub fn run(ctx: &mut Ctx) {
     ctx.assume("live bytes are counted by a #[global_allocator] wrapper in the worker process; compilation happens before the measured window");
     ctx.prop(&BoundedHeap);
     ctx.prop(&DropFrees);
+    ctx.prop(&TaskGarbage);
 }
